@@ -1072,3 +1072,5 @@ V("golomb-free-marks-hoisted", "break", ["C15"], GO, None, None, "mark_nb - ni_v
   edits=[{"old": "    if 1 < ni_var_idx < mark_nb - 1:  # otherwise useless\n", "new": "    free_mark_nb = mark_nb - ni_var_idx\n    if 1 < ni_var_idx and 1 < free_mark_nb:  # otherwise useless\n"}])
 V("golomb-free-marks-inside-guard", "neutral", ["C15", "C16"], GO, None, None, "the same local computed inside the guard",
   edits=[{"old": "        for j in range(0, mark_nb - ni_var_idx):\n", "new": "        free_mark_nb = mark_nb - ni_var_idx\n        for j in range(0, free_mark_nb):\n"}])
+V("domain-stack-widened", "neutral", ["C01", "C13", "C19"], BS, "        self.shr_domains_stack = np.empty((stack_max_height, self.problem.shr_domain_nb, 2), dtype=np.int32)\n",
+  "        self.shr_domains_stack = np.empty((stack_max_height, self.problem.shr_domain_nb, 2), dtype=np.int64)\n", "the domain stack alone widened to 64 bits (R-VALUE-WIDTH: only a narrower carrier loses something)")
